@@ -1281,6 +1281,97 @@ end Encoder
 
 end C03
 
+-- ====================================================================== 7. C08 at the level of the files
+section C08
+open TLX.Spec.Containers TLX.Props.C12
+
+theorem weave_take_sub (deco : Nat → Deco) (k : Nat) (evs : List Ev) :
+    ∀ i b, b ∈ weave deco i (evs.take k) → b ∈ weave deco i evs := by
+  induction evs generalizing k with
+  | nil => intro i b hb; simp [weave] at hb
+  | cons ev evs ih =>
+    intro i b hb
+    cases k with
+    | zero => simp [weave] at hb
+    | succ k =>
+      simp only [List.take_succ_cons, weave, List.mem_append, List.mem_cons] at hb ⊢
+      rcases hb with hb | rfl | hb
+      · exact .inl hb
+      · exact .inr (.inl rfl)
+      · exact .inr (.inr (ih k (i + 1) b hb))
+
+theorem legacy_WFfrom_take (v : LegacyVariant) (k : Nat) (evs : List Ev) :
+    ∀ i, v.WFfrom i evs → v.WFfrom i (evs.take k) := by
+  induction evs generalizing k with
+  | nil => intro i h; simpa using h
+  | cons ev evs ih =>
+    intro i h
+    cases k with
+    | zero => trivial
+    | succ k =>
+      cases ev with
+      | pkt t d =>
+        simp only [List.take_succ_cons, LegacyVariant.WFfrom] at h ⊢
+        exact ⟨h.1, h.2.1, ih k (i + 1) h.2.2⟩
+      | dsb s =>
+        simp only [List.take_succ_cons, LegacyVariant.WFfrom] at h ⊢
+        exact ih k (i + 1) h
+
+/-- a capture cut after its `k`-th event still fits the variant -/
+theorem wf_take (v : Variant) (evs : List Ev) (k : Nat) (h : v.WF evs) : v.WF (evs.take k) := by
+  cases v with
+  | pcapng v =>
+    obtain ⟨a, b, c, d, e, f⟩ := h
+    exact ⟨a, b, c, d, e, fun x hx => f x (weave_take_sub v.deco k evs 0 x hx)⟩
+  | legacy v =>
+    obtain ⟨a, b, c, d, e, f⟩ := h
+    exact ⟨a, b, c, d, e, legacy_WFfrom_take v k evs 0 f⟩
+
+theorem filterMap_take {α β : Type} (f : α → Option β) (l : List α) (k : Nat) :
+    (l.take k).filterMap f = (l.filterMap f).take ((l.take k).filterMap f).length := by
+  induction l generalizing k with
+  | nil => simp
+  | cons a l ih =>
+    cases k with
+    | zero => simp
+    | succ k =>
+      simp only [List.take_succ_cons, List.filterMap_cons]
+      cases f a with
+      | none => exact ih k
+      | some b => simp only [List.length_cons, List.take_succ_cons, List.cons.injEq, true_and]; exact ih k
+
+/-- **The byte-level fact behind C08**, both containers, any variant: the capture written with its first `k` events only
+    (the file cut after the `k`-th packet / secrets block) is read to exactly the first `k'` items the reader delivers for
+    the whole file, `k'` = the number of those events the container can hold (all `k` for pcapng; libpcap has no secrets
+    blocks). -/
+theorem read_cut (v : Variant) (evs : List Ev) (k : Nat) (hwf : v.WF evs) :
+    Container.readPrefix v.isLegacy (encode v evs) = .ok (evs.filterMap (scale v), none) ∧
+    Container.readPrefix v.isLegacy (encode v (evs.take k)) =
+      .ok ((evs.filterMap (scale v)).take ((evs.take k).filterMap (scale v)).length, none) := by
+  refine ⟨readPrefix_of_read _ _ _ (reader_roundtrip v evs hwf), ?_⟩
+  have := readPrefix_of_read _ _ _ (reader_roundtrip v (evs.take k) (wf_take v evs k hwf))
+  rw [filterMap_take] at this
+  exact this
+
+/-- **C08, whole program, file to file (TLS).** For the independent container encoder, any variant: cut the capture after
+    its `k`-th event. If no key material sits in the removed part, the cut file is read to the first `k'` main-loop items
+    and the TLS conversations exported from it are, one by one in creation order, frame-by-frame prefixes of those exported
+    from the whole file (`export_cut_prefix_tls_ingest` with its two reader hypotheses discharged). -/
+theorem export_cut_prefix_tls_file (v : Variant) (evs : List Ev) (k : Nat) (hwf : v.WF evs)
+    (c : Bool) (xs : List (Item Keylog.Key)) (is : List (Nat × Pipeline.Info))
+    (hi : Ingest.itemsWith Keylog.srcHexClass c v.isLegacy (encode v evs) = .ok (xs, is))
+    (o : MainLoop.Opts) (fk : Option (List Keylog.Key))
+    (hkeys : dsbOnly (xs.drop ((evs.take k).filterMap (scale v)).length) = []) :
+    ∃ is', Ingest.itemsWith Keylog.srcHexClass c v.isLegacy (encode v (evs.take k)) =
+        .ok (xs.take ((evs.take k).filterMap (scale v)).length, is') ∧
+      ListExt (fun fa fb : List Pipeline.OutPkt => fa <+: fb)
+        (tlsFrames H P (Ingest.lookup is') o fk (xs.take ((evs.take k).filterMap (scale v)).length))
+        (tlsFrames H P (Ingest.lookup is) o fk xs) := by
+  obtain ⟨r1, r2⟩ := read_cut v evs k hwf
+  exact ExportProps.export_cut_prefix_tls_ingest H P v.isLegacy _ _ _ _ r1 r2 c xs is hi o fk hkeys
+
+end C08
+
 -- ====================================================================== non-vacuity
 namespace Ex
 open TLX.Spec.Containers TLX.Spec.FrameBuild TLX.Props.C12
